@@ -134,6 +134,8 @@ class Group(EntityContainer):
         if parent is None:
             parent = self.parent
 
+        # the children as they stand now: the copy may be placed inside this group
+        children = list(self.children)
         new_entity = parent.workspace.copy_to_parent(
             self, parent, copy_children=False, **kwargs
         )
@@ -142,7 +144,7 @@ class Group(EntityContainer):
             return None
 
         if copy_children:
-            for child in self.children:
+            for child in children:
                 child.copy(
                     parent=new_entity,
                     copy_children=True,
@@ -164,6 +166,8 @@ class Group(EntityContainer):
         """
         Sub-class extension of :func:`~geoh5py.shared.entity.Entity.copy_from_extent`.
         """
+        # the children as they stand now: the copy may be placed inside this group
+        children = list(self.children)
         copy_group = self.copy(
             parent=parent,
             clear_cache=clear_cache,
@@ -175,7 +179,7 @@ class Group(EntityContainer):
             return None
 
         if copy_children:
-            for child in self.children:
+            for child in children:
                 child.copy_from_extent(
                     extent,
                     parent=copy_group,
